@@ -318,4 +318,46 @@ def errGrid : List Case := Id.run do
     i := i + 4
   pure out.reverse
 
+/-! ## escapes in string-like literals
+
+Every escape introducer × what follows it × every place where the string reader is used.  All class "good": a
+literal is a value or a compile error, whatever it contains. -/
+
+def bs : String := String.singleton '\\'
+
+/-- what follows the backslash: octal with 1–3 digits (also out of range), \x with 0–2 hex digits, \u and \U with too
+few digits and complete, nothing (a lone backslash) -/
+def escapeIntros : List String :=
+  ["0", "1", "7", "8", "12", "07", "78", "123", "377", "400", "777", "x", "x4", "x41", "xg", "x4g", "u", "u1", "u12", "u123",
+   "u1234", "u12g", "U", "U1", "U0001", "U0001F60", "U0001F600", "UFFFFFFFF", ""]
+
+def asciiIntros : List String := (List.range 95).map (fun k => String.singleton (Char.ofNat (32 + k)))
+
+/-- the places where parseArraiString / parseArraiStringFragment read a body -/
+def quoteForms (body : String) : List (String × String) :=
+  [("sq", "'" ++ body ++ "'"), ("dq", "\"" ++ body ++ "\""), ("bq", "‵" ++ body ++ "‵"),
+   ("xstr-dq", "$\"" ++ body ++ "\""), ("xstr-sq", "$'" ++ body ++ "'"), ("xstr-expr", "$\"" ++ body ++ "${1}" ++ body ++ "\""),
+   ("attr-get", "(a: 1).'" ++ body ++ "'"), ("attr-name", "('" ++ body ++ "': 1)"), ("dict-key", "{'" ++ body ++ "': 1}"),
+   ("dict-key-dq", "{\"" ++ body ++ "\": 1}"), ("safe-get", "(a: 1).\"" ++ body ++ "\"?:0"), ("bytes", "<<'" ++ body ++ "'>>")]
+
+def escGrid : List Case := Id.run do
+  let mut out : List Case := []
+  let mut i := 0
+  let bodies : List (String × String) :=
+    escapeIntros.flatMap (fun e =>
+      [("end", bs ++ e), ("end-after-text", "ab" ++ bs ++ e), ("before-char", "ab" ++ bs ++ e ++ "z"),
+       ("before-digit", bs ++ e ++ "8"), ("before-escape", "ab" ++ bs ++ e ++ bs ++ "n"), ("twice", bs ++ e ++ bs ++ e)]) ++
+    asciiIntros.flatMap (fun e => [("end-after-text", "ab" ++ bs ++ e), ("before-char", bs ++ e ++ "z")])
+  for (pos, body) in bodies do
+    for (q, src) in quoteForms body do
+      out := { id := s!"C10-esc-{i}", cls := "good", kind := "survive", stratum := s!"grid/escape/{q}/{pos}",
+               model := "ok", spec := "!panic", payload := [src] } :: out
+      i := i + 1
+  -- character literals
+  for e in escapeIntros ++ asciiIntros do
+    out := { id := s!"C10-esc-{i}", cls := "good", kind := "survive", stratum := "grid/escape/char",
+             model := "ok", spec := "!panic", payload := ["%" ++ bs ++ e] } :: out
+    i := i + 1
+  pure out.reverse
+
 end Arrai.C10
